@@ -82,3 +82,18 @@ for _kind, _cls, _base in (("rbf", "LRBFGaussianConditional", "LConjugateFactorM
            order=({("Dy", "Dk+Dr"): False, ("Dk", "Dk+Dr"): False} if _base.startswith("Hetero") else {}),
            sizes=([dict(Dy=2, Dx=3, Dk=2, Dr=2)] if _base.startswith("Hetero") else None),
            funcs=[f"approximate_conditional.{_base}.set_y"])(_mk_refusal(_kind))
+
+
+def _mk_mismatch(kind):
+    """R conditionals with N != R observations (R != 1): documented refusal"""
+    def ob(w):
+        Dx = "Dx" if kind in ("full", "diag") else "Dy"
+        h = SP.gen_cond_handle(w, kind, "c", "R", "Dy", Dx)
+        y = w.arr("y", "N", "Dy")
+        w.raises("batch-mismatch-refused", (RuntimeError,), lambda: h.call("set_y", y))
+    return ob
+
+
+for _kind in ("full", "identity", "identity-diag"):
+    REG.ob(f"{CLS[_kind]}.set_y/R!=N/refusal", sorts=["R", "N", "Dy"] + (["Dx"] if _kind == "full" else []),
+           funcs=[f"conditional.{CLS[_kind]}.set_y"])(_mk_mismatch(_kind))
